@@ -311,7 +311,8 @@ func ruleF3(c *Ctx) {
 		}
 		return idx
 	}
-	callsIn(f, func(ci ssa.CallInstruction) {
+	var visit func(ci ssa.CallInstruction)
+	visit = func(ci ssa.CallInstruction) {
 		cc := ci.Common()
 		var arg ssa.Value
 		if isHandlerCall(cc) {
@@ -323,11 +324,25 @@ func ruleF3(c *Ctx) {
 		}
 		n++
 		key := fmt.Sprintf("TraverseAST|handler call#%d operands", n)
+		// the slice built by a helper that evaluates the operands
+		if rs := helperResults(arg); len(rs) == 1 {
+			arg = rs[0]
+		} else if len(rs) > 1 {
+			same := true
+			for _, r := range rs {
+				if r != rs[0] {
+					same = false
+				}
+			}
+			if same {
+				arg = rs[0]
+			}
+		}
 		switch a := arg.(type) {
 		case *ssa.MakeSlice:
 			// all element stores come from TraverseAST results
 			okAll, stores := true, 0
-			for _, b := range f.Blocks {
+			for _, b := range a.Parent().Blocks {
 				for _, in := range b.Instrs {
 					st, ok := in.(*ssa.Store)
 					if !ok {
@@ -350,7 +365,13 @@ func ruleF3(c *Ctx) {
 		default:
 			c.fail("F3", key, c.L.Pos(instrPos(ci)), "handler is called with something other than the freshly built slice of evaluated operands (e.g. the raw n.Operands)")
 		}
-	})
+	}
+	for _, uf := range unitOf(f, 2) {
+		if uf != f && dispatcherParam(uf) >= 0 {
+			continue // the dispatcher itself: its own handler call passes its parameter on
+		}
+		callsIn(uf, func(ci ssa.CallInstruction) { visit(ci) })
+	}
 	c.check(n >= 2, "F3", "TraverseAST|handler call sites", c.L.Pos(f.Pos()), fmt.Sprintf("found %d dynamic handler calls (MnemonicStmt and OpcodeStmt expected)", n))
 	c.floor("F3", 3)
 }
